@@ -1,15 +1,14 @@
-// Native demonstration for unit cluster_activecov (C10), check api_stale: Cluster::activeCov() sizes ind[] from the
-// CACHED act_dim (set by the last update()) but walks the LIVE observation list.
+// Native REGRESSION demonstration for unit cluster_activecov (C10).  Before /repo e3f0492 Cluster::activeCov() sized
+// ind[] from the CACHED act_dim (set by the last update()) but walked the LIVE observation list:
+//   ./demo 1   all 6 directions passive at update(), then set_active() on all, no update():
+//              was AddressSanitizer heap-buffer-overflow WRITE obsdata.h:363 (ind[k++]); now "dim 6"
+//   ./demo 2   cluster never updated (act_dim == 0 from the constructor): was the same overflow; now "dim 6"
+//   ./demo 3   update() with all active, then set_passive() on one, no update(): was SEGV READ in
+//              CovMat::operator()(int,int) const (ind[6] uninitialised); now "dim 5", C(5,5) = 6
 // Build (needs the compiled library objects, e.g. of /repo/_build):
 //   ar rcs /tmp/libgama_objs.a $(find /repo/_build/CMakeFiles/libgama.dir -name '*.o')
 //   g++ -std=c++14 -g -O0 -fsanitize=address -I/repo/lib native_demo.cpp /tmp/libgama_objs.a -lexpat -o demo
-//   ./demo 1   all 6 directions passive at update(), then set_active() on all, no update():
-//              AddressSanitizer heap-buffer-overflow WRITE obsdata.h:363 (ind[k++]), block of 4 bytes from obsdata.h:351
-//   ./demo 2   cluster never updated (act_dim == 0 from the constructor; what SqliteReader leaves until
-//              LocalNetwork::revision_observations runs): same overflow
-//   ./demo 3   update() with all active, then set_passive() on one, no update(): ind[6] is read uninitialised ->
-//              SEGV READ in CovMat::operator()(int,int) const, covmat.h:139, called from obsdata.h:371
-// (header-only replay without a sanitizer: replay.cpp of this unit, guard words behind every new[] block)
+// (header-only regression without a sanitizer: replay.cpp of this unit, guard words behind every new[] block)
 #include <gnu_gama/local/cluster.h>
 #include <gnu_gama/local/observation.h>
 #include <cstdio>
@@ -30,7 +29,7 @@ int main(int argc, char** argv)
     sp->update();
     std::printf("after update(): activeDim() = %d\n", sp->activeDim());
     for (auto o : sp->observation_list) o->set_active();
-    CovMat C = sp->activeCov();      // ind = new int[0+1]; writes ind[1..6]
+    CovMat C = sp->activeCov();      // before the repair: ind = new int[0+1]; writes ind[1..6]
     std::printf("activeCov(): dim %d (6 observations are active)\n", C.dim());
   } else if (scenario == 2) {
     // never updated cluster (what SqliteReader leaves behind): act_dim == 0 from the constructor
@@ -40,8 +39,8 @@ int main(int argc, char** argv)
     // stale the other way: update() with all active, then one observation excluded, no update()
     sp->update();
     sp->observation_list.front()->set_passive();
-    CovMat C = sp->activeCov();      // N = 6 but only ind[1..5] are written; ind[6] is read uninitialised
-    std::printf("activeCov(): dim %d (5 observations are active); C(6,6) = %g\n", C.dim(), C(6,6));
+    CovMat C = sp->activeCov();      // before the repair: N = 6 but only ind[1..5] written
+    std::printf("activeCov(): dim %d (5 observations are active); C(5,5) = %g (expected 6)\n", C.dim(), C(5,5));
   }
   return 0;
 }
